@@ -845,6 +845,15 @@ func (p *Prover) callFacts(cond ssa.Value, val bool) []Fact {
 	if !isNil {
 		return nil
 	}
+	// a named result spilled to a local (it is captured by a deferred closure that only reads it): the tested load
+	// observes the one store that reaches it
+	if ld, isLd := tv.(*ssa.UnOp); isLd && ld.Op == token.MUL {
+		if al, isAl := ld.X.(*ssa.Alloc); isAl {
+			if vals, zero, ok := ReachingStores(al, ld); ok && !zero && len(vals) == 1 {
+				tv = vals[0]
+			}
+		}
+	}
 	ex, ok := tv.(*ssa.Extract)
 	if !ok {
 		return nil
